@@ -691,6 +691,12 @@ def gen_do_cases(ctx):
 
 def run(ctx):
     ok_build, fails = ctx.build_props(extra_targets=["State/BNDropout.vo"])
+    # the running-statistic update as written in cpu_ops.batch_norm_forward, regenerated from the source (translator tie)
+    try:
+        from checks import kernels_vector
+        kernels_vector.run_part(ctx, "Props/C13_vector.v")
+    except ModuleNotFoundError as ex:
+        ctx.notes.append("vector-kernel part not available: %s" % ex)
 
     # ---- tie 1: BatchNorm histories ---------------------------------------------------------
     cases = gen_bn_cases(ctx)
